@@ -140,6 +140,8 @@ pub struct DiskState {
     pub scribble: u64,
     pub stats: DiskStats,
     pub keep_log: bool,
+    /// huge-file cases walk hundred-thousand-entry chains: only writes are logged there
+    pub skip_read_log: bool,
 }
 
 pub struct SimDisk {
@@ -165,6 +167,7 @@ impl SimDisk {
                 scribble: 0x5eed,
                 stats: DiskStats::default(),
                 keep_log: true,
+                skip_read_log: false,
             }),
         }
     }
@@ -214,7 +217,7 @@ impl BlockDevice for &SimDisk {
             let dead = st.dead_from.map_or(false, |d| call >= d);
             if idx >= st.image.num_blocks {
                 st.stats.out_of_range += 1;
-                if st.keep_log {
+                if st.keep_log && !st.skip_read_log {
                     st.log.push(LogEntry { call, write: false, block: idx, ok: false, applied: false, pre: None, data: None });
                 }
                 return Err(DiskError::OutOfRange);
@@ -233,13 +236,13 @@ impl BlockDevice for &SimDisk {
                     let f = fault.unwrap();
                     st.fired.push((call, f, false));
                 }
-                if st.keep_log {
+                if st.keep_log && !st.skip_read_log {
                     st.log.push(LogEntry { call, write: false, block: idx, ok: false, applied: false, pre: None, data: None });
                 }
                 return Err(if dead { DiskError::Dead } else { DiskError::Injected });
             }
             blk.contents = st.image.get(idx);
-            if st.keep_log {
+            if st.keep_log && !st.skip_read_log {
                 st.log.push(LogEntry { call, write: false, block: idx, ok: true, applied: false, pre: None, data: None });
             }
         }
